@@ -444,6 +444,44 @@ pub fn c12(a: &Args) {
             run_doc(&mut out, &buf, "pages", table.user_font(), doc, &mut stats);
         }
     }
+    // (5) row ends: the LAST visible cell of a row is a "blank-looking" code (0, 32, 255, the font's own blank glyphs) or a
+    //     glyph with ink under one of those codes, on a black or coloured background, followed by nothing / invisible cells /
+    //     default blanks - for EVERY font (what is a blank is a property of the font page, not of the code)
+    for (fi_idx, fi) in fonts.iter().enumerate() {
+        let table = Table { slots: vec![(0, fi)] };
+        emit_table(&mut out, &table, "rowends");
+        let mut r = rng(seed, 124_000 + fi_idx as u64);
+        let mut codes: Vec<u32> = vec![0, 32, 255];
+        codes.extend(fi.blanks.iter().take(3));
+        codes.extend(fi.near_blank.iter().take(2));
+        if let Some(g) = pick(&mut r, &fi.mixed) { codes.push(g); }
+        let w = 12;
+        let mut rows: Vec<Vec<AttributedChar>> = Vec::new();
+        for &c in &codes {
+            for (bg, tail) in [(0u32, 0usize), (0, 1), (0, 2), (4, 0), (0, 3)] {
+                let mut at = TextAttribute::new(r.gen_range(1..16), bg);
+                at.set_font_page(0);
+                let lead = r.gen_range(0..4);
+                let mut row: Vec<AttributedChar> = (0..lead).map(|_| AttributedChar::new(ch(rnd_glyph(&mut r, fi)), rnd_attr(&mut r, 0))).collect();
+                row.push(AttributedChar::new(ch(c), at));
+                match tail {
+                    1 => { for _ in 0..3 { row.push(AttributedChar::invisible()); } }
+                    2 => { let mut d = TextAttribute::default(); d.set_font_page(0); for _ in 0..3 { row.push(AttributedChar::new(' ', d)); } }
+                    3 => { let mut d = TextAttribute::new(7, 0); d.set_font_page(0); while row.len() < w as usize { row.push(AttributedChar::new(ch(0), d)); } }
+                    _ => {}
+                }
+                while row.len() < w as usize { row.push(AttributedChar::invisible()); }
+                row.truncate(w as usize);
+                rows.push(row);
+            }
+        }
+        let h = rows.len() as i32;
+        let cells: Vec<AttributedChar> = rows.concat();
+        let mut buf = new_buffer((w, h), &table);
+        buf.layers.push(full_layer((w, h), &cells));
+        doc += 1;
+        run_doc(&mut out, &buf, "rowends", table.user_font(), doc, &mut stats);
+    }
     out.flush();
     eprintln!("c12: {doc} documents, {} events, {} cells, {} rewritten by the optimiser", out.n, stats.cells, stats.changed);
 }
